@@ -4,6 +4,7 @@ import (
 	"fmt"
 	"go/token"
 	"go/types"
+	"strings"
 
 	"golang.org/x/tools/go/ssa"
 
@@ -303,6 +304,19 @@ func C14valid(p *load.Program, run *report.Run) {
 					}
 				}
 				key := fmt.Sprintf("circuit.%s/gates[]=#%d", name, stores)
+				// the gate is validated as a whole after it has been stored: a call of a function that checks
+				// every input of the gate (Seen.Get: no error, seen) and then marks its output (Seen.Set), given
+				// the address of this element, lies on every path from the store to a return, and its error
+				// ends the parser
+				if why, done := gateValidatedAfterStore(fn, st, ia); done {
+					run.Count("gate-wire-fields", 3)
+					if why == "" {
+						run.OK("gate-wires-validated", key, p.Rel(st.Pos()), "validated as a whole by a checking helper on every path after the store")
+					} else {
+						run.Violate("gate-wires-validated", key, p.Rel(st.Pos()), why, nil)
+					}
+					continue
+				}
 				if len(fields) == 0 {
 					run.Undecided("gate-wires-validated", key, p.Rel(st.Pos()), "stored gate is not a composite literal")
 					continue
@@ -478,4 +492,184 @@ func fullScan(lb *ssa.BasicBlock, seenSlice ssa.Value, ret *ssa.BasicBlock) bool
 		}
 	}
 	return true
+}
+
+// gateValidatedAfterStore: after the store st into gates[idx], every path to a return passes a call of a gate
+// validator on &gates[idx] whose error ends the function.  done is false when no such call exists at all
+// (the per-field rule then applies); why is non-empty when one exists but does not do the job.
+func gateValidatedAfterStore(fn *ssa.Function, st *ssa.Store, ia *ssa.IndexAddr) (why string, done bool) {
+	var calls []*ssa.Call
+	for _, b := range fn.Blocks {
+		for _, ins := range b.Instrs {
+			c, ok := ins.(*ssa.Call)
+			if !ok || c.Call.StaticCallee() == nil || c.Call.StaticCallee().Blocks == nil || !load.InModule(c.Call.StaticCallee()) {
+				continue
+			}
+			for _, a := range c.Call.Args {
+				ia2, ok := a.(*ssa.IndexAddr)
+				if !ok || !sameSource(ia2.X, ia.X) || stripConv(ia2.Index) != stripConv(ia.Index) {
+					continue
+				}
+				res := c.Call.StaticCallee().Signature.Results()
+				if res.Len() == 1 && res.At(0).Type().String() == "error" {
+					calls = append(calls, c)
+				}
+			}
+		}
+	}
+	if len(calls) == 0 {
+		return "", false
+	}
+	isCall := func(x ssa.Instruction) bool {
+		for _, c := range calls {
+			if x == ssa.Instruction(c) {
+				return true
+			}
+		}
+		return false
+	}
+	if !mustPassBefore(st.Block(), instrIndex(st)+1, isCall, func(ssa.Instruction) bool { return false }) {
+		return "the gate is stored and a return is reachable without the checking helper having seen it", true
+	}
+	for _, c := range calls {
+		// the error ends the parser
+		ended := false
+		if c.Referrers() != nil {
+			for _, r := range *c.Referrers() {
+				bo, ok := r.(*ssa.BinOp)
+				if !ok || (bo.Op != token.NEQ && bo.Op != token.EQL) || bo.Referrers() == nil {
+					continue
+				}
+				for _, r2 := range *bo.Referrers() {
+					if iff, ok := r2.(*ssa.If); ok {
+						eb := iff.Block().Succs[0]
+						if bo.Op == token.EQL {
+							eb = iff.Block().Succs[1]
+						}
+						if errorExit(eb) {
+							ended = true
+						}
+					}
+				}
+			}
+		}
+		if !ended {
+			return "the error of " + c.Call.StaticCallee().Name() + " does not end the parser", true
+		}
+		if w := gateValidatorWhy(c.Call.StaticCallee()); w != "" {
+			return c.Call.StaticCallee().Name() + " " + w, true
+		}
+	}
+	return "", true
+}
+
+// gateValidatorWhy: callee checks every input of its *Gate parameter with Seen.Get (an error or "not seen"
+// ends it with an error) in a loop over g.Inputs(), and calls Seen.Set on g.Output only after that loop,
+// returning Set's error.  The order matters: marking the output first lets a gate read its own output.
+func gateValidatorWhy(callee *ssa.Function) string {
+	var gets, sets []*ssa.Call
+	for _, b := range callee.Blocks {
+		for _, ins := range b.Instrs {
+			c, ok := ins.(*ssa.Call)
+			if !ok || c.Call.StaticCallee() == nil || c.Call.StaticCallee().Signature.Recv() == nil {
+				continue
+			}
+			if !strings.HasSuffix(strings.TrimPrefix(c.Call.StaticCallee().Signature.Recv().Type().String(), "*"), "/circuit.Seen") {
+				continue
+			}
+			switch c.Call.StaticCallee().Name() {
+			case "Get":
+				gets = append(gets, c)
+			case "Set":
+				sets = append(sets, c)
+			}
+		}
+	}
+	if len(gets) == 0 || len(sets) == 0 {
+		return "does not check the inputs with Seen.Get and mark the output with Seen.Set"
+	}
+	for _, g := range gets {
+		// the checked wire is an element of g.Inputs()
+		fromInputs := false
+		var walk func(v ssa.Value, d int)
+		walk = func(v ssa.Value, d int) {
+			if d > 6 || fromInputs {
+				return
+			}
+			switch t := v.(type) {
+			case *ssa.UnOp:
+				walk(t.X, d+1)
+			case *ssa.IndexAddr:
+				walk(t.X, d+1)
+			case *ssa.Index:
+				walk(t.X, d+1)
+			case *ssa.Convert:
+				walk(t.X, d+1)
+			case *ssa.ChangeType:
+				walk(t.X, d+1)
+			case *ssa.Call:
+				if cal := t.Call.StaticCallee(); cal != nil && cal.Name() == "Inputs" {
+					fromInputs = true
+				}
+			}
+		}
+		if len(g.Call.Args) >= 2 {
+			walk(g.Call.Args[1], 0)
+		}
+		if !fromInputs {
+			return "checks a wire that is not an element of the gate's Inputs()"
+		}
+		// err != nil and !seen end with an error
+		okErr, okSeen := false, false
+		if g.Referrers() != nil {
+			for _, r := range *g.Referrers() {
+				ex, ok := r.(*ssa.Extract)
+				if !ok || ex.Referrers() == nil {
+					continue
+				}
+				for _, r2 := range *ex.Referrers() {
+					switch t := r2.(type) {
+					case *ssa.BinOp:
+						if t.Referrers() == nil {
+							continue
+						}
+						for _, r3 := range *t.Referrers() {
+							if iff, ok := r3.(*ssa.If); ok && ex.Index == 1 {
+								eb := iff.Block().Succs[0]
+								if t.Op == token.EQL {
+									eb = iff.Block().Succs[1]
+								}
+								if errorExit(eb) {
+									okErr = true
+								}
+							}
+						}
+					case *ssa.If:
+						if ex.Index == 0 && errorExit(t.Block().Succs[1]) {
+							okSeen = true
+						}
+					case *ssa.UnOp:
+						if t.Op == token.NOT && t.Referrers() != nil && ex.Index == 0 {
+							for _, r3 := range *t.Referrers() {
+								if iff, ok := r3.(*ssa.If); ok && errorExit(iff.Block().Succs[0]) {
+									okSeen = true
+								}
+							}
+						}
+					}
+				}
+			}
+		}
+		if !okErr || !okSeen {
+			return "goes on when an input is out of range or not yet assigned"
+		}
+	}
+	for _, st := range sets {
+		for _, g := range gets {
+			if st.Block() == g.Block() && instrIndex(st) < instrIndex(g) || st.Block() != g.Block() && blockReaches(st.Block(), g.Block()) {
+				return "marks the output wire as assigned before the inputs are checked: a gate that reads its own output is accepted"
+			}
+		}
+	}
+	return ""
 }
